@@ -50,6 +50,10 @@ ProgsWit == Combos([g \in G3 |-> CASE g = 1 -> {<<"Read", "Read">>, <<"Read", "W
                                    [] g = 3 -> {<<"Close", "Read">>, <<"ConnState", "Close", "Write">>,
                                                 <<"Handshake", "Read", "Close">>}])
 
+ProgsWitQ == Combos([g \in G3 |-> CASE g = 1 -> {<<"Read", "Read">>}
+                                    [] g = 2 -> {<<"Write", "Read">>, <<"CloseWrite", "Write", "Close">>}
+                                    [] g = 3 -> {<<"Close", "Read">>, <<"ConnState", "Close", "Write">>}])
+
 \* generation: programs over all call kinds, any role on any goroutine
 AnyMenu == ReaderMenuT \cup WriterMenuT \cup CloserMenuT
 ProgsGen3 == [G3 -> AnyMenu]
